@@ -12,8 +12,8 @@ from inspect import Parameter
 
 import numpy
 
-from .core import (KGChannel, KGChannelDir, KGLambda, KGSym, KlongException,
-                   bknp, is_dict, is_empty, is_list, kg_read_array, kg_write,
+from .core import (KGCall, KGChannel, KGChannelDir, KGLambda, KGSym, KlongException,
+                   bknp, copy_lambda, is_dict, is_empty, is_list, kg_read_array, kg_write,
                    reserved_fn_args, reserved_fn_symbol_map, safe_eq, safe_inspect)
 
 
@@ -737,6 +737,13 @@ def eval_sys_random_number():
     return bknp.random.random()
 
 
+def _read_dict_literal(klong, a):
+    # the reader represents a dictionary literal as a deferred copy; .r/.rs return the dictionary
+    if isinstance(a, KGCall) and a.a is copy_lambda:
+        return klong.call(a)
+    return a
+
+
 def eval_sys_read(klong):
     """
 
@@ -757,7 +764,7 @@ def eval_sys_read(klong):
     else:
         i,a = kg_read_array(r, 0, klong._backend, module=klong.current_module())
         f.raw.seek(k+i,0)
-        return a
+        return _read_dict_literal(klong, a)
 
 
 def eval_sys_read_line(klong):
@@ -805,7 +812,7 @@ def eval_sys_read_string(klong, x):
 
     """
     _, a = kg_read_array(x, 0, klong._backend, module=klong.current_module(), read_neg=True)
-    return a
+    return _read_dict_literal(klong, a)
 
 
 def eval_sys_system(x):
